@@ -486,11 +486,8 @@ def handle_nlcomp(c):
                 self.add_output('y', np.zeros(nr))
                 self.declare_partials('y', ['x', 'w'], method=method)
                 if colored:
-                    # fd cannot resolve products of two 1e-9 perturbations (the default perturb_size), which is
-                    # a limit of sampling, not of the colouring: give fd a perturbation it can see
-                    extra = {'perturb_size': 1e-2} if method == 'fd' else {}
                     self.declare_coloring(wrt='*', method=method, num_full_jacs=2, tol=1e-20,
-                                          min_improve_pct=0., show_summary=False, show_sparsity=False, **extra)
+                                          min_improve_pct=0., show_summary=False, show_sparsity=False)
 
             def compute(self, i, o):
                 o['y'] = B @ (i['x'] ** 2) + C @ (i['x'] * i['w'])
